@@ -21,7 +21,7 @@ Code anchors: files {', '.join(anch['files'])}; mechanisms: {'; '.join(m['name']
 
 TASK. Make ONE realistic change to the library source (under src/, the kind of slip or well-meant refactoring/optimisation a maintainer could plausibly commit - not sabotage, no dead giveaway comments) such that:
  1. the crate still compiles without new warnings being turned into errors, and the EXISTING test suite still passes unchanged: `cargo test --workspace --offline` (93 unit tests + 8 doc tests);
- 2. the property above is violated for SOME input / schedule / history - but the violation needs something SPECIFIC to manifest: a particular interleaving or polling order, a fault or drop at a particular point, a multi-step sequence of operations, an unusual-but-legal input value or size, or two cooperating code sites that each look fine alone. A change that ordinary use (the README example, a single publish/subscribe round trip) would expose at once is NOT wanted;
+ 2. the property above is violated for SOME input / schedule / history - but the violation needs something SPECIFIC to manifest: a particular interleaving or polling order, a fault or drop at a particular point, a multi-step sequence of operations, an unusual-but-legal input value or size, or two cooperating code sites that each look fine alone. A change that ordinary use (the README example, a single publish/subscribe round trip) would expose at once is NOT wanted. The scenario in which the violation shows must lie INSIDE what the property states and quantifies over (see 'Statement' and 'Quantified over'): behaviour the property does not speak about - e.g. what happens after a transport fault, for a property that only ranges over fault-free schedules, or after run() itself was cancelled - does not count;
  3. all other behaviour stays as it was as far as you can manage (break this property, as narrowly as possible).
 
 Focus for this round (choose your change in or near this area, it is where earlier rounds have not looked): {focus}
